@@ -50,6 +50,8 @@ def hashTy : Ty → Bool
   | .str | .int | .float | .bool | .none => true
   | .literal _ => true
   | .enum _ _ => true
+  | .rnum _ _ => true
+  | .reg _ => true
   | .tuple ts => hashTyAll ts
   | .tupleVar t => hashTy t
   | .union ts => hashTyAll ts
@@ -60,9 +62,11 @@ def hashTyAll : List Ty → Bool
 end
 
 mutual
-/-- every `Set[...]` in the type has such an element type -/
+/-- every `Set[...]` in the type has such an element type; and no restricted type occurs (its restriction is not
+    visible to `Conforms`, which only knows the base type: a conforming `-5` is refused by `PositiveInt`) -/
 def setSafe : Ty → Bool
   | .set t => hashTy t && setSafe t
+  | .rnum _ _ => false
   | .union ts => setSafeAll ts
   | .list t => setSafe t
   | .tupleVar t => setSafe t
@@ -377,6 +381,14 @@ theorem sound_gen (O : Oracle) (ll lk : Bool) : ∀ (t : Ty) (orig : Option Stri
   | .bool, orig, v, w, _, _, h => by rw [adapt] at h; exact adaptLeaf_conf O ll lk .bool v w h
   | .none, orig, v, w, _, _, h => by rw [adapt] at h; exact adaptLeaf_conf O ll lk .none v w h
   | .enum c ms, orig, v, w, _, _, h => by rw [adapt] at h; exact adaptEnum_conf ll lk c ms v w h
+  | .rnum b k, orig, v, w, _, _, h => by
+    rw [adapt] at h
+    have := (adaptRnum_ok O b k v w h).1
+    cases b <;> cases w <;> simp [RBase.has] at this <;> simp [confL]
+  | .reg k, orig, v, w, _, _, h => by
+    rw [adapt] at h
+    obtain ⟨r, rfl⟩ := adaptReg_ok O k v w h
+    simp [confL]
   | .union ts, orig, v, w, hl, hk, h => by
     rw [adapt_union_eq] at h
     simp only [confL, confLAny_iff]
